@@ -5,7 +5,8 @@ import json, os, re, subprocess, sys, glob
 ROOT = os.path.dirname(os.path.dirname(os.path.abspath(__file__)))
 EXTRA = {"C01A": ["C02"], "C01B": ["C10"], "C06B": ["C01"], "C07A": ["C05"], "C12A": ["C01"], "C14A": ["C10"], "C16B": ["C14"], "C04B": ["C08"], "M09b": ["C01"], "M07d": ["C03"],
          "C01C": ["C10"], "C01D": ["C18"], "C03D": ["C07"], "C10C": ["C01"], "C10D": ["C01"], "C06D": ["C02"], "C04D": ["C09"], "C08D": ["C04"], "C05D": ["C13"], "C02D": ["C18"],
-         "C09C": ["C01", "C12"], "C12C": ["C10", "C14"], "C14C": ["C10", "C01"], "C14D": ["C10"], "C09D": ["C04"]}
+         "C09C": ["C01", "C12"], "C12C": ["C10", "C14"], "C14C": ["C10", "C01"], "C14D": ["C10"], "C09D": ["C04"], "C19C": ["C12"],
+         "C02F": ["C07"], "C06F": ["C02"], "C09E": ["C01"], "C01E": ["C10"], "C10E": ["C01"], "C18E": ["C01"]}
 only = sys.argv[1:]
 res = {}
 try:
